@@ -285,6 +285,24 @@ def _enumerate(ctx, geo, thorough):
         slow = {"L/2": L // 2, "2L": 2 * L}.get(sl, sl)
         cases.append(_shared_client_case(rng, L, rt, w, gap, slow, b0))
 
+    # L. persistence signals by grammar position: version x Connection header shape x framing x next request x server behaviour
+    uniL = [(ver, var, fr, nxt, k) for ver in cc.VERSIONS for var in cc.CONN_VARIANTS for fr in cc.FRAMINGS
+            for nxt in ("GET", "POST") for k in ("persist-open", "persist-fin")
+            if not (k == "persist-open" and cc.reference_persistent(ver, cc.CONN_VARIANTS[var][1], fr))]   # persistent cells: one program
+    if thorough:
+        pickL = uniL
+    else:
+        pickL = []
+        for ver in cc.VERSIONS:                              # every (version, header shape) with a self-delimited body, both servers
+            for var in cc.CONN_VARIANTS:
+                cells = [u for u in uniL if u[0] == ver and u[1] == var and u[2] != "close-delimited"]
+                for k in sorted(set(u[4] for u in cells)):
+                    pickL.append(rng.choice([u for u in cells if u[4] == k]))
+        pickL += rng.sample([u for u in uniL if u[2] == "close-delimited"], 12)
+    for ver, var, fr, nxt, k in space("persistence:version*connection-header-shape*framing*next-request*server", uniL, pickL):
+        first = Req(rng.choice(["GET", "POST", "PUT"]), rng.choice([0, 2]), [Fault(k, cls="%s|%s|%s" % (ver, var, fr))])
+        cases.append(Case("persistence", [first, Req(nxt, 1, [OK]), Req("GET", 0, [OK])], ct=200))
+
     # G. reuseConnections=false: the client itself says "Connection: close"
     uniG = [(m, f) for m in methods for f in (OK, Fault("rst-after-request"), Fault("surplus"), Fault("fin-after-response-bytes", 40))]
     pickG = uniG if thorough else rng.sample(uniG, 20)
